@@ -10,6 +10,13 @@ COMMON_NOTE = ('Trusted base: z3 4.x/5.1 (python3-vt), the symx forking engine, 
                'reals), sizes beyond the stated bounds, GPU, complex dtypes. ')
 
 CHECKS = {
+ 'C01': dict(
+    text='sum_products / sum_product are executed end to end (SCC ordering, per-SCC method downgrade, F, sum_product_edges, patterned einsum, real torch_semiring_einsum) on the z3-valued tensor model with every factor '
+         'entry symbolic; for every nonterminal and every cell the solver decides equality with the definitional sum over rules x node assignments (semiring operations with 0 x inf = 0). Right level: the property is an '
+         'algebraic identity per grammar shape; values are quantified by the solver, shapes enumerated/generated inside the bound.',
+    note='Bounds: rules with <=3 nodes and <=4 edges, <=3 nonterminals, labels T(2), U(1|3), <=14 (quick) / <=22 (thorough) symbolic weights per grammar; all 4 semirings, 3 method names, float32/float64, requires_grad on/off. '
+         'Grammar families: exhaustive single-rule family (thorough; seeded sample in quick), seeded two-level family, hand-written feature set. Regimes T / P+S as stated in evidence.',
+    technique='SMT equivalence with the definitional sum-product (z3 NRA/LRA) over symbolic execution of the real code', design='5/C01'),
  'C13': dict(
     text='equal/allclose/equal_default/allclose_default/MultiTensor.allclose return Python bools: every call forks the symbolic executor, and on each path the solver decides that the returned value '
          'is equivalent to the cell-wise IEEE (resp. isclose) comparison of the independently denoted dense tensors, for all element values incl. nan and +-inf. Symmetry, reflexivity on nan-free tensors and '
